@@ -136,6 +136,50 @@ func floatEdges(c *vm.Ctx, r *vm.Rand, n int) {
 	}
 }
 
+// longStrings: quoted strings and keys at and beyond the 16-bit length field. The parser may refuse them; what it
+// accepts must come out as one well-formed document holding that string (string lengths read unsigned here).
+func longStrings(c *vm.Ctx) {
+	for _, n := range []int{32767, 32768, 40000, 65535, 65536, 65537, 70000, 131072 + 5} {
+		body := strings.Repeat("a", n)
+		for _, form := range []string{"value", "key", "list-element", "member"} {
+			var text string
+			var want *refnbt.Value
+			switch form {
+			case "value":
+				text, want = `"`+body+`"`, refnbt.St(body)
+			case "key":
+				text, want = `{"`+body+`":1b}`, &refnbt.Value{Tag: refnbt.Compound, Comp: []refnbt.Entry{{Name: body, V: refnbt.B(1)}}}
+			case "list-element":
+				text, want = `["x","`+body+`"]`, &refnbt.Value{Tag: refnbt.List, Elem: refnbt.String, List: []*refnbt.Value{refnbt.St("x"), refnbt.St(body)}}
+			default:
+				text, want = `{a:"`+body+`",b:2}`, &refnbt.Value{Tag: refnbt.Compound, Comp: []refnbt.Entry{{Name: "a", V: refnbt.St(body)}, {Name: "b", V: refnbt.In(2)}}}
+			}
+			wit := func() any { return map[string]any{"form": form, "string_bytes": n} }
+			doc, _, err, pan := toBinary(c, "t2b/long-string", text, wit)
+			if pan {
+				continue
+			}
+			c.Eval(vm.HashStr("long", form, fmt.Sprint(n)), true)
+			if err != nil {
+				c.Cover("long-string.refused")
+				continue
+			}
+			refnbt.UnsignedStringLengths = true
+			got, _, used, perr := refnbt.Parse(doc, true)
+			refnbt.UnsignedStringLengths = false
+			if perr != nil || used != len(doc) {
+				c.Violation("t2b/long-string/document-malformed/"+form, fmt.Sprintf("a %d-byte string as %s: nil error, but the document is not well-formed: %v (used %d of %d bytes)", n, form, perr, used, len(doc)), wit())
+				continue
+			}
+			if d := refnbt.Equal(got, want, refnbt.Opts{}); d != "" {
+				c.Violation("t2b/long-string/value-disagrees/"+form, "document content differs: "+short(d), wit())
+				continue
+			}
+			c.Cover("long-string.accepted-well-formed")
+		}
+	}
+}
+
 // --- monitor 1: binary -> text -> binary
 func b2t2b(c *vm.Ctx, r *vm.Rand, g *nbtgen.G, i int) {
 	var root byte
@@ -433,6 +477,9 @@ func run(c *vm.Ctx) {
 		t2b(c, tr, tg, i)
 	}
 	floatEdges(c, c.Rand("float-edges"), c.Scale(4000, 80000))
+	if c.Shard == 0 {
+		longStrings(c)
+	}
 	// totality
 	mr := c.Rand("mutations")
 	if c.Shard == 0 {
